@@ -78,6 +78,10 @@ fn node_json(n: &Node) -> String {
 }
 
 fn dump(o: &Obl, paths: &[(Vec<(u32, bool)>, obl::Res<sym::SymB>)], mode: &str, truncated: bool) {
+    dump_x(o, paths, mode, truncated, "")
+}
+
+fn dump_x(o: &Obl, paths: &[(Vec<(u32, bool)>, obl::Res<sym::SymB>)], mode: &str, truncated: bool, extra: &str) {
     let ps: Vec<String> = paths
         .iter()
         .map(|(trail, res)| {
@@ -95,8 +99,8 @@ fn dump(o: &Obl, paths: &[(Vec<(u32, bool)>, obl::Res<sym::SymB>)], mode: &str, 
             .map(|(k, ops, pc, run)| format!("[\"{}\",[{}],{},{}]", k, ops.iter().map(|x| x.to_string()).collect::<Vec<_>>().join(","), pc, run))
             .collect();
         println!(
-            "{{{},\"mode\":\"{}\",\"paths_truncated\":{},\"nodes\":[{}],\"paths\":[{}],\"partial\":[{}]}}",
-            meta_json(o), mode, truncated, nodes.join(","), ps.join(","), partial.join(",")
+            "{{{},\"mode\":\"{}\",\"paths_truncated\":{},{}\"nodes\":[{}],\"paths\":[{}],\"partial\":[{}]}}",
+            meta_json(o), mode, truncated, extra, nodes.join(","), ps.join(","), partial.join(",")
         );
     });
 }
@@ -110,6 +114,37 @@ fn emit(o: &Obl) {
         let vars: Vec<SymM> = (0..o.vars.len()).map(|i| SymM::var(i as u32)).collect();
         let res = f(&vars);
         dump(o, &[(vec![], res)], "mask-generic (SymM)", false);
+    } else if let Some((fm, ff, tol)) = &o.mf {
+        use obl::Num;
+        let vm: Vec<SymM> = (0..o.vars.len()).map(|i| SymM::var(i as u32)).collect();
+        let outs_m = fm(&vm);
+        let vars: Vec<sym::SymF> = (0..o.vars.len()).map(|i| sym::SymF::var(i as u32)).collect();
+        let mut stack: Vec<Vec<bool>> = vec![vec![]];
+        let mut paths = Vec::new();
+        let mut truncated = false;
+        while let Some(prefix) = stack.pop() {
+            if paths.len() >= MAX_PATHS {
+                truncated = true;
+                break;
+            }
+            sym::decider_start(prefix.clone());
+            arena::with(|a| a.run = paths.len() as u32);
+            let outs_f = ff(&vars);
+            let trail = sym::decider_trail();
+            for i in (prefix.len()..trail.len()).rev() {
+                let mut p: Vec<bool> = trail[..i].iter().map(|(_, t)| *t).collect();
+                p.push(!trail[i].1);
+                stack.push(p);
+            }
+            let mut res = obl::Res::<sym::SymB>::new();
+            for ((n, m), (_, f)) in outs_m.iter().zip(outs_f.iter()) {
+                // both handles live in the same arena: compare the SIMD-path term with the scalar-path term
+                res.goal(n, m.close(SymM(f.0), *tol));
+            }
+            paths.push((trail, res));
+        }
+        let mo: Vec<String> = outs_m.iter().map(|(n, m)| format!("[\"{}\",{}]", esc(n), m.0)).collect();
+        dump_x(o, &paths, "simd-vs-scalar (SymM DAG against every SymF path)", truncated, &format!("\"tol\":{:e},\"m_outputs\":[{}],", tol, mo.join(",")));
     } else if let Some(f) = &o.symf {
         let vars: Vec<sym::SymF> = (0..o.vars.len()).map(|i| sym::SymF::var(i as u32)).collect();
         // depth-first enumeration of decision vectors; every run extends its prefix with `true` outcomes
